@@ -39,6 +39,13 @@ def sources(tier, wd, out, per_focus_quick=250, per_focus_thorough=1200, foci=FO
                            for k, g in enumerate(sorted(perm)))
             res.append(("family/gradient-order", '<svg xmlns="http://www.w3.org/2000/svg" viewBox="0 0 16 16">'
                         '<defs>%s</defs>%s</svg>' % (defs, body), None))
+            if len(perm) == 4 and ids_[0] == "ga":
+                # ... and with one of the four not used by any shape (it disappears, the others keep their order)
+                unused = perm[1]
+                body3 = "".join('<rect x="%d" y="1" width="3" height="9" fill="url(#%s)"/>' % (1 + 4 * k, g)
+                                for k, g in enumerate(sorted(x for x in perm if x != unused)))
+                res.append(("family/gradient-order", '<svg xmlns="http://www.w3.org/2000/svg" viewBox="0 0 16 16">'
+                            '<defs>%s</defs>%s</svg>' % (defs, body3), None))
     unsupported = ['<image width="3" height="3"/>', '<text>t</text>', '<mask id="m"><rect width="2" height="2"/></mask>',
                    '<filter id="f"/>', '<foo:bar xmlns:foo="http://example.com/foo"/>',
                    '<foreignObject width="2" height="2"/>', '<a><rect width="2" height="2"/></a>',
